@@ -101,6 +101,12 @@ class C03(Check):
             term = ('a2', 'add', ('var', 0), ('next', ('var', 1)))
             f = [('pred', 'geq', ('a1', 'sqrt', term), ('const', 1)), ('pred', 'geq', ('a1', 'sqrt', ('a2', 'add', ('var', 0), ('evt', 1, 1, ('var', 1)))), ('const', 2))][k % 2]
             cases.append({'f': f, 'n': n, 'nv': 2, 'cols': [x, y], 'times': list(range(n)), 'fe': 'stl', 'partial_warmup': 1})
+        # the delay statement under the interface-aware semantics (the pastifier has to carry the io type of every variable over)
+        for f in [('implies', P, ('evt', 0, 2, Q)), ('alwt', 0, 1, ('or', P, ('next', Q))), ('and', ('evt', 1, 2, P), Q), ('untilt', 0, 2, P, Q), ('implies', P, ('next', Q))]:
+            for sem in ('output-robustness', 'input-robustness', 'output-vacuity', 'input-vacuity'):
+                for io in ([1, 0], [0, 1]):
+                    n = 7
+                    cases.append({'f': f, 'n': n, 'nv': 2, 'cols': fml.gen_trace(rng, 2, n), 'times': list(range(n)), 'ia': {'sem': sem, 'io': io}})
         return cases
 
     def normalize(self, c):
@@ -132,10 +138,14 @@ class C03(Check):
         return c
 
     def model_lines(self, c):
+        if c.get('ia'):
+            return ['(pastpk (iaspec %s (%s)) %s %d %s)' % (c['ia']['sem'], ' '.join(str(b) for b in c['ia']['io']), fml.to_sx(c['f']), c['n'], fml.trace_sx(c['cols']))]
         return ['(past %s %s %d %s)' % (c.get('fe', 'stl'), fml.to_sx(c['f']), c['n'], fml.trace_sx(c['cols']))]
 
     def impl_cases(self, c):
         case = online_case(c['f'], c['cols'], c['times'], c['nv'], pastify=True, **c.get('spell', {}))
+        if c.get('ia'):
+            case.update({'semantics': c['ia']['sem'], 'io': {fml.VARS[k]: ('input' if b else 'output') for k, b in enumerate(c['ia']['io'])}})
         if c.get('subs'):
             from harness.modular import modular_spec
             case.update(modular_spec(c))
@@ -152,6 +162,25 @@ class C03(Check):
         m = parse_fields(mlines[0])
         if 'ERROR' in m:
             return 'model-error', mlines
+        if c.get('ia'):
+            if m['GUARD'] != ['1'] or m['EXACT'] != ['1']:
+                return 'dropped', None
+            spec = json.loads(json.dumps([None if x == '_' else expect_vals([fml.parse_val(x)])[0] for x in m['SPEC']]))
+            i = ires[0]
+            det = {'semantics': c['ia']['sem'], 'io': c['ia']['io'], 'guard_future_above_past': True,
+                   'expected': {'source': 'rho under the interface-aware semantics of the original formula on the samples seen so far, at i - horizon; _ = unspecified', 'values': spec}}
+            if i['setup']['status'] != 'ok':
+                return 'violation', dict(det, observed=i['setup'])
+            obs = []
+            for r in i['calls'][:-1]:
+                if r['status'] != 'ok':
+                    return 'violation', dict(det, observed=r)
+                obs.append(r['value'])
+            obs = json.loads(json.dumps(obs))
+            bad = [k for k in range(len(obs)) if spec[k] is not None and obs[k] != spec[k]]
+            if bad:
+                return 'violation', dict(det, observed=obs, differs_at=bad)
+            return 'ok', None
         if m['EXACT'] != ['1'] and not c.get('partial_warmup'):
             return 'dropped', None
         h = int(m['HOR'][0])
